@@ -890,9 +890,10 @@ module Dp = struct
         let n = nat_of_int in
         (match p with
          | 20 -> Some (ESubmit (n q)) | 1 -> Some (EWTop (n t)) | 2 -> Some (EWWaitEnter (n t, n v)) | 3 -> Some (EWWaitExit (n t))
-         | 4 -> Some (EWPop (n t, n q)) | 5 -> Some (EWEnd (n t, n q)) | 6 -> Some (EWExit (n t)) | 7 -> Some (EWDone (n t))
+         (* 25 / 24 are reported BEFORE the state change becomes visible to unprotected readers (5 / 21 after it: ignored) *)
+         | 4 -> Some (EWPop (n t, n q)) | 25 -> Some (EWEnd (n t, n q)) | 6 -> Some (EWExit (n t)) | 7 -> Some (EWDone (n t))
          | 9 -> Some (EHEnter (n q)) | 10 -> Some (EHEmpty (n q)) | 11 -> Some (EHBusy (n q)) | 12 -> Some (EHPop (n q)) | 13 -> Some (EHEnd (n q))
-         | 15 | 17 -> Some (EBarrierPass (n q)) | 21 -> Some ETerminate | 22 -> Some EClear | 23 -> Some EJoined
+         | 15 | 17 -> Some (EBarrierPass (n q)) | 24 -> Some ETerminate | 22 -> Some EClear | 23 -> Some EJoined
          | _ -> None)
     | _ -> None
   let run () =
@@ -902,10 +903,11 @@ module Dp = struct
       match split_ws l with
       | ["init"; w; sq] -> st := d_init (nat_of_int (int_of_string w)) (nat_of_int (int_of_string sq))
       | "T" :: toks ->
-          let evs = Stdlib.List.filter_map event_of toks in
+          let kept = Stdlib.List.filter (fun t -> event_of t <> None) toks in
+          let evs = Stdlib.List.filter_map event_of kept in
           (match first_reject false !st evs O with
            | None -> print_endline "ACCEPT"
-           | Some i -> Printf.printf "REJECT %d %s\n" (int_of_nat i) (Stdlib.List.nth toks (int_of_nat i)))
+           | Some i -> Printf.printf "REJECT %d %s\n" (int_of_nat i) (Stdlib.List.nth kept (int_of_nat i)))
       | _ -> ()
     done with End_of_file -> ())
 end
